@@ -629,6 +629,30 @@ func init() {
 					specs = append(specs, sp)
 				}
 			}
+			// both slots built by the library's constructors of the exact-statistics variant
+			if len(specs) > 0 {
+				c0, c1 := ctorByName("NewDefaultDDSketchWithExactSummaryStatistics"), ctorByName("NewDDSketchWithExactSummaryStatisticsFromData")
+				cs := *specs[0]
+				cs.Map = MapSpec{Kind: 'G', Alpha: 0.1}
+				cs.Stores = []Kind{c0.Store(0), c1.Store(0)}
+				cs.Name = "C10/constructors(0.1)/P+S"
+				cs.Ctor = func(slot int) *SkSlot {
+					if slot == 0 {
+						return c0.New(0.1, 0)
+					}
+					return c1.New(0.1, 0)
+				}
+				cs.Ops = nil
+				for _, o := range specs[0].Ops {
+					if o.tag != "changemapping" {
+						cs.Ops = append(cs.Ops, o)
+					}
+				}
+				if m := cs.Map.New(); true {
+					cs.Ops[5] = skAdd(0, m.MinIndexableValue()/2)
+				}
+				specs = append(specs, &cs)
+			}
 			return shardsOfSketchSpecs(specs)
 		},
 		ShardBudget: budget(70*time.Second, 12*time.Minute),
